@@ -141,7 +141,8 @@ def run(tier, rep):
                 rep.violation(f"build-verdict:{shape}:expected-{'ok' if st['ok'] else 'fail'}", {"order": o["order"], "package": p, "stderr": err}, replay={"order": o}); bad = True; break
             if ok:
                 # check and build of the same sources emit the same interface
-                ok2, err2, _ = cli(["check", "--package", p, "--input"] + inputs[p] + ["--interface-path", f"{proj}/out", "--output", f"{proj}/chk/{p}"])
+                # (the files of a package are a set: `check` is given them in the opposite order and must emit the same interface)
+                ok2, err2, _ = cli(["check", "--package", p, "--input"] + inputs[p][::-1] + ["--interface-path", f"{proj}/out", "--output", f"{proj}/chk/{p}"])
                 if not ok2:
                     rep.violation(f"check-rejects-what-build-accepts:{shape}", {"package": p, "stderr": err2}, replay={"order": o}); bad = True; break
                 if open(f"{proj}/chk/{p}.interface").read() != open(f"{proj}/out/{p}.interface").read():
